@@ -146,3 +146,174 @@ Proof.
   cbv zeta. split; [vm_compute; reflexivity|]. split; [vm_compute; reflexivity|]. split; [vm_compute; reflexivity|].
   eexists. split; [vm_compute; reflexivity|]. split; vm_compute; reflexivity.
 Qed.
+
+(* ---- part B: framing ---- *)
+(* NAL unit streams between start-code framing (H.264 Annex B) and 4-byte
+   length framing (ISO 14496-15, "AVCC"): avc.IterateNaluAnnexb /
+   IterateNaluAvcc / Annexb2Avcc / Avcc2Annexb / IterateNaluStartCode and
+   h2645.JoinNaluAvcc.  A stream is [join_annexb l ++ repeat 0 z]: every unit u
+   comes with the number k >= 2 of zero bytes of its start code (k = 2: 00 00 01,
+   k = 3: 00 00 00 01, larger k: leading_zero_8bits / the trailing_zero_8bits of
+   the unit in front), z zero bytes follow the last unit.  [sc_ok (k, u)] is
+   2 <= k and nal_wf u = what emulation prevention guarantees: no 00 00 01
+   inside u and the last byte of u is not 00. *)
+From Lal Require Import Codec.CodecNalFraming Codec.CodecNalFramingProofs.
+
+(* the unit list survives Annex B -> units, Annex B -> AVCC, AVCC -> units,
+   AVCC -> Annex B (4-byte codes) -> units, for every mix of start code lengths
+   and any number of trailing zero bytes (the code after the
+   c19_annexb_trailing_zeros fix) *)
+Theorem c19_framing : forall (l : list (nat * bytes)) (z : nat),
+  l <> [] -> Forall sc_ok l -> Forall len32_ok l ->
+  let nals := map snd l in
+  let s := join_annexb l ++ repeat 0 z in
+  iterate_nalu_annexb s = (nals, None)
+  /\ annexb2avcc s = (join_nalu_avcc nals, None)
+  /\ iterate_nalu_avcc (join_nalu_avcc nals) = (nals, None)
+  /\ avcc2annexb (join_nalu_avcc nals) = (annexb_join4 nals, None)
+  /\ iterate_nalu_annexb (annexb_join4 nals) = (nals, None).
+Proof. exact framing_all. Qed.
+Print Assumptions c19_framing.
+
+(* trailing_zero_8bits after EVERY unit: they are absorbed into the next start
+   code (or dropped after the last unit) *)
+Theorem c19_framing_zeros_after_every_unit : forall l : list (nat * bytes * nat),
+  l <> [] -> Forall sc_tz_ok l ->
+  iterate_nalu_annexb (join_annexb_tz l) = (map (fun x => snd (fst x)) l, None).
+Proof. exact iterate_annexb_join_tz. Qed.
+Print Assumptions c19_framing_zeros_after_every_unit.
+
+(* length framing needs nothing of the unit contents: non-empty, below 2^32 *)
+Theorem c19_framing_avcc : forall nals : list bytes,
+  nals <> [] -> Forall avcc_ok nals ->
+  iterate_nalu_avcc (join_nalu_avcc nals) = (nals, None)
+  /\ avcc2annexb (join_nalu_avcc nals) = (annexb_join4 nals, None).
+Proof. intros nals H1 H2. split; [apply iterate_avcc_join|apply avcc2annexb_join]; assumption. Qed.
+Print Assumptions c19_framing_avcc.
+
+(* the pinned tree handed nals[start:] to the handler for the last unit:
+   trailing zero bytes ended up inside the unit (and in its AVCC length) *)
+Theorem c19_framing_trailing_zeros_refuted :
+  exists l z, l <> [] /\ Forall sc_ok l /\
+    iterate_nalu_annexb_pinned (join_annexb l ++ repeat 0 z) <> (map snd l, None).
+Proof. exact iterate_annexb_pinned_refuted. Qed.
+Print Assumptions c19_framing_trailing_zeros_refuted.
+
+(* ... and was right exactly when nothing follows the last unit *)
+Theorem c19_framing_pinned_without_trailing_zeros : forall l : list (nat * bytes),
+  l <> [] -> Forall sc_ok l -> iterate_nalu_annexb_pinned (join_annexb l) = (map snd l, None).
+Proof. exact iterate_annexb_pinned_join. Qed.
+Print Assumptions c19_framing_pinned_without_trailing_zeros.
+
+(* IterateNaluStartCode: position and length (zero bytes + 01) of the first start code *)
+Theorem c19_framing_start_code : forall u k r, nal_wf u -> (2 <= k)%nat ->
+  iterate_nalu_start_code (u ++ repeat 0 k ++ 1 :: r) 0 = Some (lenN u, N.of_nat (S k)).
+Proof. exact start_code_found. Qed.
+Print Assumptions c19_framing_start_code.
+
+(* the loops of the model never run out of fuel: the results above and the
+   correspondence runs are about the real control flow, for every input *)
+Theorem c19_framing_total : forall nals,
+  snd (iterate_nalu_annexb nals) <> Some err_out_of_fuel
+  /\ snd (iterate_nalu_avcc nals) <> Some err_out_of_fuel.
+Proof. intros nals. split; [apply iterate_annexb_total|apply iterate_avcc_total]. Qed.
+Print Assumptions c19_framing_total.
+
+(* non-vacuity: a stream with 3-, 4- and 6-byte start codes, an emulation
+   prevention byte, and three trailing zero bytes *)
+Example c19_framing_nonvacuous :
+  (example_units <> [] /\ Forall sc_ok example_units /\ Forall len32_ok example_units)
+  /\ join_annexb example_units ++ repeat 0 3
+     = [0;0;0;1; 103;100;0;40; 0;0;1; 104;0;0;3;1;0;1;238; 0;0;0;0;0;1; 101; 0;0;0]
+  /\ iterate_nalu_annexb (join_annexb example_units ++ repeat 0 3)
+     = ([[103;100;0;40]; [104;0;0;3;1;0;1;238]; [101]], None)
+  /\ fst (annexb2avcc (join_annexb example_units ++ repeat 0 3))
+     = [0;0;0;4; 103;100;0;40; 0;0;0;8; 104;0;0;3;1;0;1;238; 0;0;0;1; 101].
+Proof. split; [exact example_units_ok|]. repeat split. Qed.
+(* ---- end of part B ---- *)
+
+(* ---- part C: audio (AAC) ---- *)
+(* aac.AscContext (the first 13 bits of the ISO 14496-3 AudioSpecificConfig:
+   object type, sampling frequency index, channel configuration), the ADTS
+   header lal writes/reads, and the FLV/RTMP AAC sequence header af 00 + ASC.
+   [adts_carried c]: 1 <= object type <= 4, sampling index < 16, channel
+   configuration < 8 - what the ADTS header has bits for.
+   [asc_carried c]: object type < 32, index < 16, channels < 16 (no escape). *)
+From Lal Require Import Codec.CodecAac Codec.CodecAacProofs.
+
+(* ASC -> context -> ADTS header -> context -> ASC: object type, sampling index
+   and channels agree, the frame length field is 7 + payload length, for every
+   carried context, EVERY payload length below 8192 - 7 and any payload bytes
+   behind the header *)
+Theorem c19_asc_adts : forall c n payload, adts_carried c -> n + 7 < 8192 ->
+  adts_unpack (adts_pack c n ++ payload) = Ok (c, n + 7)
+  /\ asc_of_adts (adts_pack c n) = Ok (asc_pack c)
+  /\ asc_unpack (asc_pack c) = Ok c.
+Proof.
+  intros c n payload Hc Hn. split; [apply adts_unpack_pack; assumption|].
+  apply (asc_adts_asc (asc_pack c) c n); try assumption.
+  rewrite <- (app_nil_r (asc_pack c)). apply asc_unpack_pack, adts_carried_asc, Hc.
+Qed.
+Print Assumptions c19_asc_adts.
+
+(* ADTS header -> ASC -> ADTS header, for EVERY byte string lal accepts as a
+   header: what Unpack reports is carried, survives MakeAscWithAdtsHeader and
+   the way back *)
+Theorem c19_adts_asc_adts : forall h c len, adts_unpack h = Ok (c, len) ->
+  (adts_carried c /\ len < 8192)
+  /\ asc_of_adts h = Ok (asc_pack c)
+  /\ asc_unpack (asc_pack c) = Ok c
+  /\ (7 <= len -> adts_unpack (adts_pack c (len - 7)) = Ok (c, len)).
+Proof. intros h c len E. split; [exact (adts_unpack_carried h c len E)|exact (adts_asc_adts h c len E)]. Qed.
+Print Assumptions c19_adts_asc_adts.
+
+(* Pack / Unpack of the context itself; bytes behind the first two do not matter *)
+Theorem c19_asc_pack_unpack : forall c ext, asc_carried c -> asc_unpack (asc_pack c ++ ext) = Ok c.
+Proof. exact asc_unpack_pack. Qed.
+Print Assumptions c19_asc_pack_unpack.
+
+(* what is LOST, exactly: Unpack then Pack keeps the first 13 bits of the
+   config and nothing else (GASpecificConfig flags, SBR/PS extension, ...) *)
+Theorem c19_asc_keeps_13_bits : forall b0 b1 rest c, b0 < 256 -> b1 < 256 ->
+  asc_unpack (b0 :: b1 :: rest) = Ok c -> asc_pack c = [b0; b1 - b1 mod 8].
+Proof. exact asc_pack_unpack. Qed.
+Print Assumptions c19_asc_keeps_13_bits.
+
+Theorem c19_asc_extension_refuted :
+  exists asc c n, asc_unpack asc = Ok c /\ adts_carried c /\ n + 7 < 8192 /\
+    asc_of_adts (adts_pack c n) = Ok [18; 16] /\ asc <> [18; 16].
+Proof. exact asc_extension_refuted. Qed.
+Print Assumptions c19_asc_extension_refuted.
+
+(* outside what ADTS carries the header silently says something else: object
+   type 5 (SBR) reads back as 1, channel configuration 8 as 0, a payload of
+   8185 bytes as frame length 0 *)
+Theorem c19_adts_loss_refuted :
+  (exists c n, asc_carried c /\ n + 7 < 8192 /\ asc_aot c = 5 /\
+     adts_unpack (adts_pack c n) = Ok (mk_asc 1 (asc_sfi c) (asc_chan c), n + 7))
+  /\ (exists c n, asc_carried c /\ n + 7 < 8192 /\ asc_chan c = 8 /\
+     adts_unpack (adts_pack c n) = Ok (mk_asc (asc_aot c) (asc_sfi c) 0, n + 7))
+  /\ (exists c n, adts_carried c /\ n + 7 = 8192 /\ adts_unpack (adts_pack c n) = Ok (c, 0)).
+Proof. exact (conj adts_object_type_refuted (conj adts_channels_refuted adts_frame_length_refuted)). Qed.
+Print Assumptions c19_adts_loss_refuted.
+
+(* the sequence header is af 00 + the config bytes, for every config of 2 bytes
+   and more; lal reads its tag header back as AAC / sequence header *)
+Theorem c19_aac_seq_header :
+  (forall asc, (2 <= length asc)%nat ->
+     aac_seqh_of_asc asc = Ok (175 :: 0 :: asc)
+     /\ skipn 2 (175 :: 0 :: asc) = asc
+     /\ aac_seqh_unpack (175 :: 0 :: asc) = [10; 3; 1; 1; 0])
+  /\ (forall h c len, adts_unpack h = Ok (c, len) -> aac_seqh_of_adts h = Ok (175 :: 0 :: asc_pack c)).
+Proof. exact (conj aac_seqh_of_asc_ok aac_seqh_of_adts_ok). Qed.
+Print Assumptions c19_aac_seq_header.
+
+(* non-vacuity: AAC-LC 44.1 kHz stereo with an SBR extension, a 376 byte frame *)
+Example c19_aac_nonvacuous :
+  asc_unpack [18; 16; 86; 229; 0] = Ok (mk_asc 2 4 2) /\ adts_carried (mk_asc 2 4 2)
+  /\ adts_pack (mk_asc 2 4 2) 376 = [255; 241; 80; 128; 47; 255; 252]
+  /\ adts_unpack ([255; 241; 80; 128; 47; 255; 252] ++ [33; 0]) = Ok (mk_asc 2 4 2, 383)
+  /\ asc_of_adts [255; 241; 80; 128; 47; 255; 252] = Ok [18; 16]
+  /\ aac_seqh_of_adts [255; 241; 80; 128; 47; 255; 252] = Ok [175; 0; 18; 16].
+Proof. exact aac_example_ok. Qed.
+(* ---- end of part C ---- *)
